@@ -133,6 +133,27 @@ func vfC05Run(cs vfC05Case, res *vfC05Stats) string {
 				wantShell = append(wantShell, ch...)
 				res.chunks++
 			}
+		case "dragback":
+			// a drag that is taken back: a chunk that consists of existing paths only is, by design, kept from the server for
+			// 300 ms (it would start an upload); an ordinary key inside that time cancels it. The key goes through, the path text
+			// does not (by design), no upload command is typed - and everything afterwards passes like before.
+			if m := check(i, "before the drag"); m != "" {
+				return m
+			}
+			sess.typeInput(a.Chunks[0])
+			time.Sleep(20 * time.Millisecond)
+			sess.typeInput(a.Chunks[1])
+			res.chunks++
+			time.Sleep(600 * time.Millisecond) // past the point at which the upload would have been started
+			// a reader that got round to it late saw both chunks as one read, which is no drag at all: then everything goes through
+			if both := append(append([]byte(nil), a.Chunks[0]...), a.Chunks[1]...); bytes.HasSuffix(sess.shellIn.bytes()[shellBase:], both) {
+				wantShell = append(wantShell, both...)
+			} else {
+				wantShell = append(wantShell, a.Chunks[1]...)
+			}
+			probe := []byte(fmt.Sprintf("<<after-taken-back-drag-%d>>\r\n", i))
+			sess.shellOutput(probe)
+			wantTerm = append(wantTerm, probe...)
 		case "transfer":
 			if m := check(i, "before transfer"); m != "" {
 				return m
@@ -337,6 +358,12 @@ func vfGenC05(rt *rapid.T) vfC05Case {
 			a.Kind = "transfer"
 			a.Outcome = rapid.SampledFrom([]string{"succeeded", "refused", "failed", "stopped", "forked"}).Draw(rt, "outcome")
 			a.Upload = rapid.Bool().Draw(rt, "upload")
+		case cs.Sess.Drag && k == 1 && rapid.IntRange(0, 2).Draw(rt, "dragback") == 0:
+			a.Kind = "dragback"
+			a.Chunks = [][]byte{
+				[]byte(rapid.SampledFrom([]string{"/etc/hostname ", "/tmp ", "/etc/hostname /etc/passwd ", "'/etc/hostname' ", "/etc /tmp "}).Draw(rt, "dragpaths")),
+				[]byte(rapid.SampledFrom([]string{"q", "\x7f", "ls\r", "x", "\x1b[A"}).Draw(rt, "dragkey")),
+			}
 		case k <= 5:
 			a.Kind = "out"
 			m := rapid.IntRange(1, 4).Draw(rt, "nchunks")
@@ -376,6 +403,9 @@ func TestVF_C05(t *testing.T) {
 		for _, a := range cs.Acts {
 			if a.Kind == "transfer" {
 				labels = append(labels, "after_transfer_"+a.Outcome)
+			}
+			if a.Kind == "dragback" {
+				labels = append(labels, "drag_taken_back")
 			}
 		}
 		if st.excluded > 0 {
@@ -519,6 +549,11 @@ func (ch *vfChatter) finish() string {
 	}
 	if missing > 0 {
 		return fmt.Sprintf("while the wrapper refused a download by itself (no transfer was ever active) %d of %d lines printed by the remote side did not reach the terminal (first: %s)", missing, len(ch.lines), first)
+	}
+	lastTok := ch.toks[len(ch.toks)-1]
+	deadline = time.Now().Add(3 * time.Second)
+	for time.Now().Before(deadline) && !bytes.Contains(ch.sess.c2s.transcript(), lastTok) {
+		time.Sleep(2 * time.Millisecond)
 	}
 	in := ch.sess.c2s.transcript()
 	missing = 0
